@@ -273,6 +273,64 @@ static void alias_case(op_t op, MODULE_TYPE mt, int native, uint64_t N, uint64_t
   case_end(rs >= 1);
 }
 
+// the two INPUTS of a binary operation are the same vector (same pointer, same stride) read with different limb counts -
+// nothing forbids reading one buffer twice; optionally the output is that vector too (res == a == b)
+static void same_inputs_case(op_t op, MODULE_TYPE mt, int native, uint64_t N, uint64_t rs, uint64_t as, uint64_t bs, int res_too, unsigned slc, unsigned rep) {
+  if (op_arity(op) != 2 || a_is_big(op) != b_is_big(op)) return;
+  if (res_too && a_is_big(op) != op_is_big(op)) return;
+  char key[160];
+  snprintf(key, sizeof key, "%s(a==b%s)|%s%s%s", op_name[op], res_too ? "==res" : "", as == bs ? "a=b" : (as < bs ? "a<b" : "a>b"), mt == NTT120 ? ",ntt120" : "", native ? "" : ",generic");
+  if (!case_begin(key, "N=%" PRIu64 " res=%" PRIu64 " a=%" PRIu64 " b=%" PRIu64 " sl=%u rep=%u", N, rs, as, bs, slc, rep)) return;
+  rng_t* r = crng();
+  const MODULE* mod = get_module(N, mt, native);
+  const uint64_t xsl = a_is_big(op) ? N : stride_choice(N, slc);
+  uint64_t lim = as > bs ? as : bs;
+  if (res_too && rs > lim) lim = rs;
+  zvec_t X, R;
+  zvec_alloc(&X, N, lim, xsl, 8 * (rep % 8));
+  zvec_alloc(&R, N, res_too ? 0 : rs, op_is_big(op) ? N : stride_choice(N, slc + 1), 8 * ((rep + 3) % 8));
+  zvec_prefill(&R, (int)rep, 3);
+  int64_t* x0 = malloc((lim ? lim : 1) * N * 8);
+  for (uint64_t l = 0; l < lim; l++) {
+    for (uint64_t i = 0; i < N; i++) zvec_limb(&X, l)[i] = rng_sbits(r, 60);
+    structure_words(r, (uint64_t*)zvec_limb(&X, l), N, 60);
+    memcpy(x0 + l * N, zvec_limb(&X, l), N * 8);
+  }
+  int64_t* out = res_too ? X.p : R.p;
+  const uint64_t osl = res_too ? X.sl : R.sl;
+  VEC_ZNX_BIG* OB = (VEC_ZNX_BIG*)out;
+  const VEC_ZNX_BIG* XB = (const VEC_ZNX_BIG*)X.p;
+  switch (op) {
+    case OP_ADD: vec_znx_add(mod, out, rs, osl, X.p, as, X.sl, X.p, bs, X.sl); break;
+    case OP_SUB: vec_znx_sub(mod, out, rs, osl, X.p, as, X.sl, X.p, bs, X.sl); break;
+    case OP_BIG_ADD: vec_znx_big_add(mod, OB, rs, XB, as, XB, bs); break;
+    case OP_BIG_SUB: vec_znx_big_sub(mod, OB, rs, XB, as, XB, bs); break;
+    case OP_BIG_ADD_SMALL2: vec_znx_big_add_small2(mod, OB, rs, X.p, as, X.sl, X.p, bs, X.sl); break;
+    case OP_BIG_SUB_SMALL2: vec_znx_big_sub_small2(mod, OB, rs, X.p, as, X.sl, X.p, bs, X.sl); break;
+    default: break;
+  }
+  uint64_t nbad = 0;
+  for (uint64_t l = 0; l < rs; l++)
+    for (uint64_t i = 0; i < N; i++) {
+      const int64_t al = l < as ? x0[l * N + i] : 0, bl = l < bs ? x0[l * N + i] : 0;
+      const int64_t want = op_is_sub(op) ? al - bl : al + bl;
+      const int64_t got = out[l * osl + i];
+      if (got != want && nbad++ < 2) viol("oracle", "%s with a == b%s (a_size=%" PRIu64 ", b_size=%" PRIu64 ", res_size=%" PRIu64 ", N=%" PRIu64 "): limb %" PRIu64 " coeff %" PRIu64 ": got %" PRId64 " want %" PRId64, op_name[op], res_too ? " == res" : "", as, bs, rs, N, l, i, got, want);
+    }
+  if (!res_too)
+    for (uint64_t l = 0; l < lim; l++)
+      if (memcmp(zvec_limb(&X, l), x0 + l * N, N * 8)) { viol("snapshot", "%s with a == b modified its input (limb %" PRIu64 ")", op_name[op], l); break; }
+  char msg[200];
+  if (zvec_check(&X, msg, sizeof msg) || zvec_check(&R, msg, sizeof msg)) viol("canary", "%s (a == b): %s", op_name[op], msg);
+  cnt("same_input_calls", 1);
+  cnt("limbs_compared", rs);
+  sample("both inputs are one vector read with %" PRIu64 " and %" PRIu64 " limbs", as, bs);
+  free(x0);
+  zvec_free(&X);
+  zvec_free(&R);
+  case_end(rs >= 1);
+}
+
 // several vectors as interleaved views of ONE buffer (column views of a matrix of polynomials): view v has its limbs at
 // base + v*N + i*stride with stride = nviews*N. A legal layout: every stride is >= N and no two limbs overlap; the limbs of
 // the other views lie exactly in each view's "padding" and must stay untouched.
@@ -464,6 +522,21 @@ void run_C08(void) {
         if (!th && ALL_N[ni] > 4096 && cfg) continue;
         concurrent_case(ALL_N[ni], cfg == 2 ? NTT120 : FFT64, cfg != 1, cfg == 0 ? 8 : 4, rep);
       }
+  // both inputs the same vector
+  for (size_t ni = 0; ni < N_ALL_N; ni++) {
+    static const op_t BOPS[] = {OP_ADD, OP_SUB, OP_BIG_ADD, OP_BIG_SUB, OP_BIG_ADD_SMALL2, OP_BIG_SUB_SMALL2};
+    for (size_t oi = 0; oi < ARRAY_LEN(BOPS); oi++)
+      for (int cfg = 0; cfg < 3; cfg++) {
+        if (cfg == 2 && op_is_big(BOPS[oi])) continue;
+        for (uint64_t rs = 0; rs <= 3; rs++)
+          for (uint64_t as = 0; as <= 3; as++)
+            for (uint64_t bs = 0; bs <= 3; bs++) {
+              ctr++;
+              if (ALL_N[ni] > 16 && (mix64(ctr) % (th ? 4 : 24))) continue;
+              same_inputs_case(BOPS[oi], cfg == 2 ? NTT120 : FFT64, cfg != 1, ALL_N[ni], rs, as, bs, (int)(ctr & 1), ctr % 4, 0);
+            }
+      }
+  }
   // interleaved views of one buffer
   for (size_t ni = 0; ni < N_ALL_N; ni++) {
     const uint64_t N = ALL_N[ni];
